@@ -13,6 +13,16 @@ width sets   full  : W in [struct_min, struct_min+8] u {20, 40, 80, 200}
 consoles     utf8 everywhere; ascii-only (file.encoding == "ascii") and legacy_windows additionally
              on the D1 and CH3 families at W in {struct_min, struct_min+1, 20}
 
+Family WT crosses the fixed `width=` options of Panel / Align / Constrain (values below and ABOVE the available
+width) with short / long titles and expand, all alternatives.  Family SH (shared-argument histories): ONE Text
+object is handed to a host as an argument (Panel / Rule / Columns title, Table title / caption / header / footer)
+or kid (panel, padding, align, constrain, styled, table cell, columns item, tree label) AND used again as the
+host's sibling; for every mode of SHARED_MODES (one group render; the group rendered twice; host, text, other
+rendered one after the other as three print calls would; the same after measuring the host; the host rendered
+twice first) the concatenated output must have no line wider than W and must equal, render by render
+(characters and styles), what the same events produce on equal but separate objects (keys
+"shared/<slot>/overflow", "shared/<slot>/differs-from-copies").
+
 A violating (tree, W) is shrunk before it is keyed: the blame descends into a child that already
 overflows when rendered alone, then every option that is not needed for the overflow is reset to
 its default.  Finding key = "<kind of the blamed node>/<its remaining non-default options>" (plus
@@ -222,8 +232,78 @@ def _short(d, limit=300):
     return s if len(s) <= limit else s[:limit] + "..."
 
 
+# ------------------------------------------------------------------ shared-argument histories (family SH)
+# an event is ("R" render | "M" measure, part) with part "G" = the whole group or an index into its kids
+SHARED_MODES = {
+    "group": [("R", "G")],
+    "group-twice": [("R", "G"), ("R", "G")],
+    "prints": [("R", 0), ("R", 1), ("R", 2)],
+    "measure-then-prints": [("M", 0), ("R", 0), ("R", 1), ("R", 2)],
+    "host-twice-then-prints": [("R", 0), ("R", 0), ("R", 1), ("R", 2)],
+}
+
+
+def _run_events(d, events, W, shared):
+    """-> list with one output per "R" event: list of (char, style) incl. the newlines; control segments skipped.
+    shared=True: the objects are built once with one bind dict; False: a fresh, unshared object per event."""
+    from rich.measure import Measurement
+    con = gen.make_console("utf8")
+    opts = con.options.update(width=W)
+    objs = {}
+    if shared:
+        bind = {}
+        objs = {i: gen.build(k, bind) for i, k in enumerate(d[2])}
+        from rich.console import RenderGroup
+        objs["G"] = RenderGroup(*[objs[i] for i in range(len(d[2]))])
+    outs = []
+    for what, part in events:
+        obj = objs[part] if shared else gen.build(d if part == "G" else d[2][part])
+        if what == "M":
+            Measurement.get(con, obj, W)
+        else:
+            outs.append([(ch, seg.style) for seg in con.render(obj, opts) if not seg.is_control for ch in seg.text])
+    return outs
+
+
+def check_shared_case(d, W, mode, res):
+    slot = gen.share_slot(d)
+    case = {"tree": d, "W": W, "console": "utf8", "mode": mode}
+    events = SHARED_MODES[mode]
+    try:
+        got = _run_events(d, events, W, True)
+        want = _run_events(d, events, W, False)
+    except Exception as e:  # noqa: BLE001
+        res.evaluations += 1
+        res.violate("shared/%s/%s" % (slot, crash_key(e)), case, "%s: %s" % (type(e).__name__, e))
+        return
+    res.evaluations += 1
+    text = "".join(ch for out in got for ch, _ in out)
+    lines = text.split("\n")
+    mx = max(gen.sw(ln) for ln in lines)
+    same = got == want
+    res.sig(("shared", slot.split(".")[0], mode, mx == W, same), nontrivial=len(events) > 1)
+    if mx > W:
+        res.violate("shared/%s/overflow" % slot, case,
+                    "mode %s at W=%d: a line of %d cells: %r" % (mode, W, mx, max(lines, key=gen.sw)))
+    if not same:
+        i = next(i for i, (a, b) in enumerate(zip(got, want)) if a != b)
+        ga, wa = "".join(c for c, _ in got[i]), "".join(c for c, _ in want[i])
+        res.violate("shared/%s/differs-from-copies" % slot, case,
+                    "mode %s at W=%d: render #%d gives %r, on separate equal objects %r%s"
+                    % (mode, W, i, ga, wa, "" if ga != wa else " (styles differ)"))
+
+
+def check_shared(d, res):
+    sm = struct_min(d)
+    for W in widths(sm, FULL):
+        for mode in SHARED_MODES:
+            check_shared_case(d, W, mode, res)
+
+
 def check_tree(d, tier, fam_name, res):
     sm = struct_min(d)
+    if fam_name == "SH":
+        check_shared(d, res)
     for W in widths(sm, wmode(tier, fam_name)):
         check_case(d, W, "utf8", res, sm)
     if fam_name in ALT_CONSOLE_FAMILIES:
@@ -272,10 +352,13 @@ def describe(tier, seed, res):
                  "option deviations, alternatives per option) are in gen.families.__doc__. Each tree x every W of its "
                  "width set (full: struct_min..struct_min+8 u {20,40,80,200}; short: struct_min..+5 u {20,80}; narrow: "
                  "struct_min..+3 u {20,80}) on the utf8 console; D1 and CH3 also on ascii-only and legacy_windows "
-                 "consoles at struct_min, struct_min+1, 20. "
+                 "consoles at struct_min, struct_min+1, 20. WT = fixed width options (below and above the available "
+                 "width) x titles x expand. SH = one Text object shared between a host's argument / kid slot and the "
+                 "host's sibling: additionally every mode of %s x full widths, output compared with the same events on "
+                 "separate equal objects and measured against W. "
                  "An evaluation is one render; it is non-trivial when some line uses the full width W (the layout was "
                  "constrained) or exceeds it; distinct = (root kind, lines, tight, ragged, at-minimum, overflow) "
-                 "signatures. Not the full option product: deviation-bounded." % "; ".join(parts)),
+                 "signatures. Not the full option product: deviation-bounded." % ("; ".join(parts), sorted(SHARED_MODES))),
         "assumptions": [
             "struct_min is computed from the description (vf/structmin.py) and errs on the large side; widths below it are not judged (C14 covers termination there)",
             "tables have columns free to wrap: no Table(width), Columns(width), column width / min_width / no_wrap",
@@ -288,5 +371,8 @@ def describe(tier, seed, res):
 
 def replay(case):
     res = Result()
-    check_case(case["tree"], case["W"], case.get("console", "utf8"), res)
+    if case.get("mode"):
+        check_shared_case(case["tree"], case["W"], case["mode"], res)
+    else:
+        check_case(case["tree"], case["W"], case.get("console", "utf8"), res)
     return [(k, v[2]) for k, v in sorted(res.violations.items())]
